@@ -578,13 +578,30 @@ func (w *Worker) step(st *State) {
 			st.goPanicRuntime("assignment to entry in nil map", "errorString")
 		}
 		k := st.get(fr, in.Key)
-		ks := st.mapKey(k)
-		md := st.mapData(m, true)
-		if e, ok := md.M[ks]; ok {
-			e.V = copyVal(st.get(fr, in.Value))
+		if _, sym := st.symKey(k); sym || st.mapData(m, false).SymKeys {
+			// keys with symbolic bytes: locate an equal key first (may fork), then update
+			ksFound, found := st.findEntry(st.mapData(m, false), k)
+			md := st.mapData(m, true)
+			if found {
+				md.M[ksFound].V = copyVal(st.get(fr, in.Value))
+			} else {
+				ks := fmt.Sprintf("y:%d", len(md.Keys))
+				if str, ok := st.concreteStr(k); ok {
+					ks = "s:" + str
+				}
+				md.M[ks] = &MapEntry{K: k, V: copyVal(st.get(fr, in.Value))}
+				md.Keys = append(md.Keys, ks)
+				md.SymKeys = true
+			}
 		} else {
-			md.M[ks] = &MapEntry{K: k, V: copyVal(st.get(fr, in.Value))}
-			md.Keys = append(md.Keys, ks)
+			ks := st.mapKey(k)
+			md := st.mapData(m, true)
+			if e, ok := md.M[ks]; ok {
+				e.V = copyVal(st.get(fr, in.Value))
+			} else {
+				md.M[ks] = &MapEntry{K: k, V: copyVal(st.get(fr, in.Value))}
+				md.Keys = append(md.Keys, ks)
+			}
 		}
 		if st.AccessLog != nil {
 			st.AccessLog.note(st, Ptr{Obj: m.Obj}, true)
